@@ -186,7 +186,10 @@ def build(mod):
 
     def child_ok(e, i, gen):
         c = entry('child%d.build' % i)
-        return c is not None and count(e, 'child%d.build' % i) == 1 and c[1][0] is gen and c[1][1] is False
+        if c is None or count(e, 'child%d.build' % i) != 1 or not c[1] or c[1][0] is not gen:
+            return False
+        flag = c[1][1] if len(c[1]) > 1 else c[2].get('children_only', 'default (children only)')
+        return flag is False        # the child itself must be renamed too: children_only=False, given explicitly
     benv = dict(base_env, itemgetter=PExt('operator.itemgetter', lambda e, a, k: ('itemgetter',) + tuple(a)), sorted=PExt('sorted', sorted_model), reversed=PExt('reversed', reversed_model),
                 declared=Helper(lambda e, s: SBool(DECL(s.t))), child_ok=Helper(child_ok),
                 skip_is_reserved=Helper(lambda e: entry('generator') is not None and entry('generator')[2].get('skip') is rec['reserved']),
